@@ -581,6 +581,9 @@ func main() {
 		col := newCollector()
 		t := &tot{sample: r.Worker == 0, l: l, st: [2]*station{newStation(false), newStation(true)}, budget: *budgetFlag, marker: r.Out + ".harness-error"}
 		_ = os.Remove(t.marker)
+		// the position family runs first: it is small, and a wall-clock cap must never lose it
+		fmt.Printf("position family\n")
+		t.runPositions(r.Quick(), int64(len(groups)+1)<<32, col, r.Shard)
 		for gi, g := range groups {
 			g := g
 			if r.Expired() {
@@ -681,6 +684,10 @@ func main() {
 	if got := r.P.Counters["totality_requests"]; len(crashed) == 0 && len(r.P.Caps) == 0 && got != int64(2*totalCases) {
 		core.Fatal("totality part ran %d requests, expected %d", got, 2*totalCases)
 	}
+	pb := (&tot{}).runPositions(r.Quick(), 0, nil, func(int) bool { return false })
+	if len(crashed) == 0 && !noPosition && r.P.Counters["position_offender_rejected_companions_alone_accepted"] == 0 {
+		core.Fatal("position family: no case in which the offending pair is rejected while its companions alone are accepted")
+	}
 	if r.P.Counters["roundtrips"] == 0 {
 		core.Fatal("round-trip part did not run")
 	}
@@ -702,9 +709,11 @@ func main() {
 				"Part C (client-side histories): every ordered pair over %d S1 and %d S2 history values (Str in {empty, a, %%41} x Strs in {nil, empty non-nil, [empty string], 1, 2, 3 elements}; scalars jointly {zero, small, extreme} x slices jointly {nil, empty non-nil, one zero element, one non-zero element, two elements}) and every ordered triple over %d / %d of them is configured into ONE client-side container of every carrier that has one - the same Request object (struct setter applied 2-3 times, one send), the client-wide defaults (updated 2-3 times, a bare request after every update), consecutive requests from one client's request pool, and a Request whose body was first set through another body carrier - and the struct decoded by the server is compared with the value configured LAST; a failure that the same value shows on a fresh request is filed under the part-A signature; non-trivial = two consecutive steps configure different values. "+
 				"Declaration family (part A): two more shapes, T1 (%d values: every field with a different name per carrier through param/query/form/header/cookie/json/xml/cbor tags, two string fields and the int / []int fields with CROSSED names, one untagged field) and K1 (%d values: int, int16, int32, uint, uint8, uint16, slices of int8..uint32, a string, an unexported field) run through the same product, and for every shape extra variants in which the client is handed a POINTER to the struct. "+
 				"Part D (families over compact value sets of all four shapes, %d+%d+%d+%d values): configuration - %d station flavors with a configuration field that is redundant for binding (accept-all StructValidator, Immutable, StreamRequestBody, explicit default codecs, custom binders registered for %d neighbour MIME types of the standard ones, a custom binder serving application/json; each alone and all together) x carriers x splitting x auto x {direct, Body()}; combined - one request carries a different value in query, header, cookie and one of {no body, form, multipart, json, xml, cbor} (every (query value, body value) pair, header and cookie values rotated) and the handler runs a bind program on it (%d programs for four carriers: an adjacency-covering set of bind orders - thorough: all permutations, body step direct and through Body() - every source bound twice, body bound through Body() and directly in both orders), every bind judged against the value put into ITS source; envelope - the struct travels in a request that also has one of %d envelope options (URL with own query / fragment, client base URL, unrelated param / header / cookie / form field on the Request before or after the struct setter or client-wide, User-Agent + Referer, cookie jar with a cookie for this and for another host, methods PUT / PATCH / DELETE / POST, everything at once). A family failure that the same value shows alone on a plain fresh request is filed under the part-A signature. "+
-				"Part B: %d groups (5 key-value carriers x 9 bind targets x splitting - S1, S2, S3, two string maps over the 31 hostile keys; S4 (embedded struct, unexported fields, pointers, array, interface, nested slices, time, file headers, slices of structs, bytes, a tagged field), the tagged T1, map[string]any and map[string]int over 38 keys that resolve against those declarations; in the multipart carrier every key also as a FILE part; 5 body bind calls x 10 content types x 3 targets) each over all single hostile components and all ordered pairs of them, each request run with manual and automatic handling, judged for panic / error / status / paired consistency / allocation; non-trivial = the request got past the HTTP parser and reached the binder.",
+				"Part B: %d groups (5 key-value carriers x 9 bind targets x splitting - S1, S2, S3, two string maps over the 31 hostile keys; S4 (embedded struct, unexported fields, pointers, array, interface, nested slices, time, file headers, slices of structs, bytes, a tagged field), the tagged T1, map[string]any and map[string]int over 38 keys that resolve against those declarations; in the multipart carrier every key also as a FILE part; 5 body bind calls x 10 content types x 3 targets) each over all single hostile components and all ordered pairs of them, each request run with manual and automatic handling, judged for panic / error / status / paired consistency / allocation; non-trivial = the request got past the HTTP parser and reached the binder. "+
+				"Position family (part B): %d cases = 9 targets x splitting x %d offending pairs (keys with unmatched square brackets, values that cannot be the type of a known scalar field, index / depth / dotted keys without a reference verdict) x every ordered list of 1..%d distinct accepted companion pairs (of %d) not touching the offender's field; each case sends, in each of %d carriers (query and url-encoded form with raw and with percent-encoded keys, multipart, headers, cookies), the companions alone and the offender inserted at every position (first / middle / last), under manual and automatic handling; judged: an offender with a reference verdict is an error at every position, the verdict does not depend on the position, query / form / multipart agree on the same pairs, plus the panic / status / paired-consistency rules.",
 				len(shapes[0].Values), len(strAlpha), len(shapes[1].Values), hb.H1Values, hb.H2Values, hb.H1TripleValues, hb.H2TripleValues,
-				len(shapes[2].Values), len(shapes[3].Values), hb.H1Values, hb.H2Values, len(t1Compact()), len(k1Compact()), fb.Flavors, len(neighbourMIMEs), fb.ComboPrograms, fb.EnvOptions, len(groups)),
+				len(shapes[2].Values), len(shapes[3].Values), hb.H1Values, hb.H2Values, len(t1Compact()), len(k1Compact()), fb.Flavors, len(neighbourMIMEs), fb.ComboPrograms, fb.EnvOptions, len(groups),
+				pb.Cases, pb.Offenders, pb.MaxCompanions, pb.Companions, pb.Carriers),
 			"bounds": map[string]any{
 				"string_alphabet": alpha, "s1_values": len(shapes[0].Values), "s2_values": len(shapes[1].Values),
 				"hostile_keys": len(hostileKeys), "hostile_keys_rich_targets": len(richKeys), "totality_targets": len(targets), "hostile_values": len(hostileVals), "hostile_body_fragments": len(bodyFrags), "content_types": len(ctypes),
@@ -714,6 +723,8 @@ func main() {
 				"cfg_flavors": fb.Flavors, "cfg_neighbour_mime_types": len(neighbourMIMEs), "cfg_roundtrips": fb.CfgCases,
 				"combined_requests": fb.ComboRequests, "combined_binds": r.P.Counters["combined_binds"], "combined_programs_four_carriers": fb.ComboPrograms,
 				"envelope_options": fb.EnvOptions, "envelope_requests": fb.EnvCases,
+				"position_cases": pb.Cases, "position_requests": r.P.Counters["position_requests"], "position_offenders": pb.Offenders, "position_companions": pb.Companions, "position_max_companions_per_request": pb.MaxCompanions, "position_carriers": pb.Carriers,
+				"position_offender_rejected_companions_alone_accepted": r.P.Counters["position_offender_rejected_companions_alone_accepted"],
 				"max_components_per_hostile_request": 2, "totality_groups": len(groups), "totality_cases": totalCases,
 				"alloc_budget_bytes": budget, "alloc_max_wellformed_bytes": maxWF, "alloc_wellformed_calibration": calib,
 				"alloc_rule": "budget = 64 x the largest TotalAlloc delta of a well-formed request (40-element slices, 300-byte strings) over all carriers, at least 1 MiB, rounded up to a power of two; measured per batch of 64 request pairs and per request when a batch exceeds it",
@@ -728,7 +739,7 @@ func main() {
 			"histories: headers have no struct setter (Request or Client) and take part only in the consecutive-pooled-requests histories; a value set client-wide combined with a different value on the request, and a Request object sent twice, are outside the statement (the client merges / accumulates) and are not judged",
 			"carrier legality: header values without CR/LF/NUL/edge whitespace; cookie values of RFC 6265 cookie-octets; JSON/CBOR valid UTF-8; XML 1.0 Char; JSON cannot carry infinities",
 			"equality: numeric == on numbers (so -0 equals 0), byte equality on strings, nil and empty slices identified; NaN is not in the alphabet",
-			"totality: which inputs MUST fail is judged only for values that cannot be the type of a known scalar field and for bodies the documented codec (encoding/json, encoding/xml, fxamacker/cbor) rejects or a content type Body() does not list; elsewhere only panic / status / paired-consistency / allocation are judged",
+			"totality: which inputs MUST fail is judged only for values that cannot be the type of a known scalar field, for keys whose square brackets do not match in the carriers with bracket notation (query, form, multipart; binder/mapping.go reports 'unmatched brackets') and for bodies the documented codec (encoding/json, encoding/xml, fxamacker/cbor) rejects or a content type Body() does not list; elsewhere only panic / status / paired-consistency / allocation are judged",
 			"allocation is runtime.MemStats.TotalAlloc in a GOMAXPROCS=1 worker process that runs nothing else",
 		},
 		MinOutcomes: 6,
